@@ -294,6 +294,66 @@ class TailIntegralOfEachModel(Lemma):
         return (abs(ub - want) > 1e-12 * max(1.0, abs(want)), {"x": x, "first_model": float(ua), "second_model": float(ub), "second_model_own_tail": float(want)})
 
 
+class TailIntegralAfterTruncation(Lemma):
+    """History on ONE copula model (real constructor, real truncate_levy_measure of the model and of its margins, real
+    TruncatedLevyMeasure.integrate; the base measures abstract): marginal tail integrals evaluated AFTER the model was
+    truncated do not depend on what was evaluated before the truncation -- the object with an earlier evaluation and a
+    freshly built, identically truncated object return the same values, at the level evaluated earlier and at a new one.
+    (Whether the rectangle mass follows the truncation is not stated here: it must only be ONE measure.)"""
+    prop = "C12"
+    cases = ((0.3, 0.2), (-0.3, -0.45), (1, 2))
+    name = "property:tail-integral-after-truncation-is-history-free"
+
+    def _build(self, vc):
+        LM = "rpylib.model.levymodel.levymodel:"
+        mk_model = lambda k: vc.obj(LM + "LevyModel", levy_triplet=vc.obj(LM + "LevyTriplet", nu=vc.obj(LM + "LevyMeasure", tag=k)))
+        cop = vc.obj("rpylib.distribution.levycopula:LevyCopula")
+        return vc.new(LC + "LevyCopulaModel", [mk_model(0), mk_model(1)], cop)
+
+    def prove(self, vc, case):
+        x, y = case
+        it = vc.interp
+        MUK = z3.Function("MU_margin", z3.IntSort(), z3.RealSort(), z3.RealSort(), z3.RealSort())
+        big = 10 ** 9
+
+        def integ(i_, f, b_):
+            e = lambda v: as_real_term(lift(-big if (not is_sym(v) and v == -INF) else (big if (not is_sym(v) and v == INF) else v)))
+            return Sym(MUK(z3.IntVal(b_["self"].fields["tag"]), e(b_["a"]), e(b_["b"])), "r")
+        it.hooks["rpylib.model.levymodel.levymodel:LevyMeasure.integrate"] = integ
+        l, r = vc.real("trunc_left"), vc.real("trunc_right")
+        vc.assume(And(l < 0, 0 < r, l > -big, r < big))
+        nm = f"{self.name}[{x},{y}]"
+        try:
+            A, B = self._build(vc), self._build(vc)
+            vc.method(A, "marginal_tail_integral", 0, x)          # the earlier evaluation
+            for o in (A, B):
+                vc.method(o, "truncate_levy_measure", [(l, r), (l, r)])
+            ax, bx = vc.method(A, "marginal_tail_integral", 0, x), vc.method(B, "marginal_tail_integral", 0, x)
+            ay, by = vc.method(A, "marginal_tail_integral", 0, y), vc.method(B, "marginal_tail_integral", 0, y)
+        except PyRaise as e:
+            vc.check(nm + f"::evaluates[{e.exc_type}]", False)
+            return
+        vc.check(nm + "::level-evaluated-before-the-truncation", ax == bx)
+        vc.check(nm + "::new-level", ay == by)
+        # one measure: the increment between the two levels is the same measure's mass on both objects
+        vc.check(nm + "::increment-between-the-two-levels", ax - ay == bx - by)
+
+    def replay(self, model, clause, case):
+        from contracts import battery
+        x, y = case
+        f = lambda v, dflt: float(v["float"]) if isinstance(v, dict) else (float(v) if v is not None else dflt)
+        l, r = f(model.get("trunc_left"), -0.25), f(model.get("trunc_right"), 0.25)
+        for (l_, r_) in ((l, r), (-0.25, 0.25), (-0.4, 0.4)):
+            A, B = battery.copula_model(2, "clayton"), battery.copula_model(2, "clayton")
+            A.marginal_tail_integral(0, x)
+            for o in (A, B):
+                o.truncate_levy_measure([(l_, r_), (l_, r_)])
+            vals = [A.marginal_tail_integral(0, x), B.marginal_tail_integral(0, x), A.marginal_tail_integral(0, y), B.marginal_tail_integral(0, y)]
+            if abs(vals[0] - vals[1]) > 1e-12 or abs(vals[2] - vals[3]) > 1e-12:
+                return (True, {"truncation": [l_, r_], "x": x, "y": y, "with_earlier_evaluation": [float(vals[0]), float(vals[2])], "fresh_object": [float(vals[1]), float(vals[3])]})
+        return (False, {})
+
+
 _COP = {}
 _UF1 = z3.Function("U_marginal", z3.IntSort(), z3.RealSort(), z3.RealSort())     # U_i(x) = sgn(x) nu_i(I(x))
 
@@ -384,7 +444,7 @@ class MarginTailIntegral(FunctionContract):
         return (abs(got - want) > 1e-9 * max(1.0, abs(want)), {"dimension": d, "indices": list(idx), "x": xs, "margin_tail_integral": got, "recomputed": want})
 
 
-UNITS = [FastPaths(2), FastPaths(3), Additivity(2), Additivity(3), MarginalConsistency(), MarginTailIntegral(), TailIntegralOfEachModel()]
+UNITS = [FastPaths(2), FastPaths(3), Additivity(2), Additivity(3), MarginalConsistency(), MarginTailIntegral(), TailIntegralOfEachModel(), TailIntegralAfterTruncation()]
 def LATE_UNITS():
     # non-negativity and the I-margins of the mass rest on the copula being a Levy copula in every dimension used: the
     # grounded / margins / volume contracts of the copulas offered by the helpers live in c11
